@@ -130,7 +130,7 @@ func init() {
 		ID:      "C07",
 		NewCase: func() interface{} { return &GCase{} },
 		Gen: func(t *rapid.T) interface{} {
-			o := GenOpts{MaxNT: 3, MaxDepth: 3, Alphabet: "ab", NonMono: true, MaxInput: 6, Skeleton: rapid.Bool().Draw(t, "skeleton"), Share: true, ExtraMemo: 4}
+			o := GenOpts{MaxNT: 3, MaxDepth: 3, Alphabet: "ab", NonMono: true, MaxInput: 6, Skeleton: rapid.Bool().Draw(t, "skeleton"), Share: true, ExtraMemo: 4, Single: rapid.IntRange(0, 3).Draw(t, "single") == 0}
 			if thorough() {
 				o.MaxNT, o.MaxInput = 4, 8
 			}
@@ -140,12 +140,17 @@ func init() {
 				o.MaxInput += 2
 			}
 			g := GenGrammar(t, o)
+			if o.Trims && rapid.Bool().Draw(t, "trimskeleton") {
+				trimSkeleton(t, g, o)
+				fixRepetitions(g, t, o.Alphabet)
+				g.number()
+			}
 			if rapid.IntRange(0, 2).Draw(t, "share") == 0 {
 				shareTransform(t, g, o)
 				fixRepetitions(g, t, o.Alphabet)
 				g.number()
 			}
-			return &GCase{G: g, In: GenInput(t, g, o), MemoAll: rapid.IntRange(0, 3).Draw(t, "memoAll") > 0}
+			return &GCase{G: g, In: GenInput(t, g, o), MemoAll: o.Trims || rapid.IntRange(0, 3).Draw(t, "memoAll") > 0}
 		},
 		Check: checkC07,
 	})
